@@ -29,10 +29,27 @@ RS = "ref_schema.py"
 def propagated_fields(fi, dst, srcname):
     """Fields f with  dst.f.update/extend(src.f)  or  dst.f[:] = src.f."""
     out = set()
+    # plain local aliases of a field:  x = dst.f  (bound once)
+    alias = {}
+    stores = {}
+    for n in walk_shallow(fi.node):
+        if isinstance(n, ast.Name) and isinstance(n.ctx, ast.Store):
+            stores[n.id] = stores.get(n.id, 0) + 1
+    for n in walk_shallow(fi.node):
+        if isinstance(n, ast.Assign) and len(n.targets) == 1 \
+                and isinstance(n.targets[0], ast.Name) \
+                and isinstance(n.value, ast.Attribute) \
+                and stores.get(n.targets[0].id) == 1:
+            alias[n.targets[0].id] = n.value
+
+    def field(e):
+        if isinstance(e, ast.Name) and e.id in alias:
+            return alias[e.id]
+        return e
     for n in walk_shallow(fi.node):
         if isinstance(n, ast.Call) and isinstance(n.func, ast.Attribute) \
                 and n.func.attr in ("update", "extend") and n.args:
-            a, b = n.func.value, n.args[0]
+            a, b = field(n.func.value), field(n.args[0])
             if isinstance(a, ast.Attribute) and isinstance(b, ast.Attribute) \
                     and src(a.value) == dst and src(b.value) == srcname \
                     and a.attr == b.attr:
@@ -40,7 +57,7 @@ def propagated_fields(fi, dst, srcname):
         elif isinstance(n, ast.Assign) and isinstance(n.targets[0],
                                                       ast.Subscript) \
                 and isinstance(n.targets[0].slice, ast.Slice):
-            a, b = n.targets[0].value, n.value
+            a, b = field(n.targets[0].value), field(n.value)
             if isinstance(a, ast.Attribute) and isinstance(b, ast.Attribute) \
                     and src(a.value) == dst and src(b.value) == srcname \
                     and a.attr == b.attr:
